@@ -5,11 +5,17 @@
 set -u
 SEED=$(readlink -f "$1"); shift
 D=$(mktemp -d /tmp/seed.XXXXXX)
-git -C /repo archive HEAD | tar -x -C "$D"
+REF=HEAD
+if [ -f "$SEED/meta.json" ]; then   # a seed neutralised by a later repair is replayed on the commit it was confirmed on
+  REF=$(/venv/bin/python -c "import json,sys;print(json.load(open(sys.argv[1])).get('pinned_repo_commit') or 'HEAD')" "$SEED/meta.json")
+fi
+git -C /repo archive "$REF" | tar -x -C "$D"
 ( cd "$D" && patch -p1 -s < "$SEED/patch.diff" ) || { echo "APPLY-FAILED"; rm -rf "$D"; exit 3; }
 echo "-- baseline with change: $(/verif/tools/baseline.py "$D" | head -1)"
 /venv/bin/python -B "$SEED/demo.py" "$D" > "$D/demo.with" 2>&1; echo "-- demo with change exit=$? (want 1)"
-/venv/bin/python -B "$SEED/demo.py" /repo > "$D/demo.without" 2>&1; echo "-- demo on /repo exit=$? (want 0)"
+if [ "$REF" = HEAD ]; then BASE=/repo; else BASE=$(mktemp -d /tmp/seedbase.XXXXXX); git -C /repo archive "$REF" | tar -x -C "$BASE"; fi
+/venv/bin/python -B "$SEED/demo.py" "$BASE" > "$D/demo.without" 2>&1; echo "-- demo on unchanged tree ($REF) exit=$? (want 0)"
+[ "$REF" = HEAD ] || rm -rf "$BASE"
 TIER=${TIER:-quick}
 for id in "$@"; do
   s=$(date +%s)
